@@ -26,10 +26,10 @@ func init() { props["C20"] = genC20 }
 const c20FirstParty = "https://api.first.test/v1"
 
 type c20Reply struct {
-	Kind   string // RDischarge RPoll RRedirect RError
-	Host   string // poll host / redirect target (authority as written in the URL)
-	N      int
-	Next   *c20Reply
+	Kind string // RDischarge RPoll RRedirect RError
+	Host string // poll host / redirect target (authority as written in the URL)
+	N    int
+	Next *c20Reply
 }
 
 func (r *c20Reply) clone() *c20Reply {
